@@ -587,6 +587,7 @@ func TestVerif_C15(t *testing.T) {
 	defer r.Finish()
 	r.SetRule("one case = one server connection (MAX_CONCURRENT_STREAMS in {1,2,3,4,8}, sometimes a bounded server-to-client pipe the client drains at PRNG points) driven by a PRNG client script of 20-120 steps: GET/POST opens (also at provably-full quiescent points), 23 kinds of malformed / connection-specific requests, open+immediate RST_STREAM, RST_STREAM of live streams at any point, handler releases (handlers park, some ignoring cancellation), PING, SETTINGS (incl. empty/unknown), request DATA, WINDOW_UPDATE, drains; plus four directed openings (limit filled then exceeded; all handlers busy with reset streams then up to 4x limit new streams; every malformed kind once; several SETTINGS+PING while a large frame write is stuck in the pipe). non-trivial = the session used at least 4 of {effective client reset, early reset, malformed request, over-limit open, PING, extra SETTINGS} and reached the handler limit; distinct = script text")
 	r.Assume("frames decoded by the independent h2ref reader; a client RST_STREAM counts as received only from the next quiescent point at which the server had consumed all client bytes and had no write in progress; the handler bound is measured by start/return hooks inside the user handler; PING/SETTINGS answers are compared at quiescent points while the connection is open with no GOAWAY seen")
+	r.Assume("a stream counts as opened beyond the limit only when it is bracketed by two quiescent points: at the first (all client bytes processed, no server write blocked or half on the wire, nothing done by the script since) at least MAX_CONCURRENT_STREAMS streams had a started, unreturned handler and neither END_STREAM/RST_STREAM from the server nor RST_STREAM from the client; then only the HEADERS frame is sent and the script waits for quiescence again before any release/reset/drain — handler releases and the server reading a frame are otherwise unordered, and the server stops counting a stream as soon as it has buffered END_STREAM/RST_STREAM for it")
 	r.Assume("a malformed request answered by a 4xx response instead of RST_STREAM counts as rejected (RFC 9113 §8.1.1 allows an HTTP response before closing the stream); the requirement checked strictly is that the user handler never runs")
 
 	vsrvGoroutineTracking(true)
